@@ -106,7 +106,9 @@ def gen_fields(rng, bound):
     if rng.random() < 0.4:
         ids = []
         for _ in range(rng.randrange(1, 4)):
-            ids.append(rng.choice(["abc", "g1a2b3c", "x", "main", "7", "0", "10", "a1", "1a", "build", "20240315", str(min(bound, U32))]))
+            ids.append(rng.choice(["abc", "g1a2b3c", "x", "main", "7", "0", "10", "a1", "1a", "build", "20240315", str(min(bound, U32)),
+                                   # build / local identifiers have no numeric limit: beyond u32, beyond u64, a timestamp-sized run
+                                   "4294967296", "18446744073709551615", "18446744073709551616", "20260921141320", "9" * 41]))
         f["build"] = ids
     return f
 
@@ -229,8 +231,6 @@ def work_no_silent_change(bins, cases):
         p = canon_pep440(f)
         big = f[slot][1] if slot == "pre" else f[slot]
         trials = [(s, "semver", "semver"), (s, "semver", "pep440")]
-        if big <= U64:
-            pass
         trials += [(p, "pep440", "semver"), (p, "pep440", "pep440")]
         pv = P.parse(p)
         if pv is not None:
@@ -246,6 +246,9 @@ def work_no_silent_change(bins, cases):
                 bad.append(("panic@" + out.split(":")[0], "render %r panicked: %s" % (inp, out), case))
                 continue
             if k != "ok":
+                if fi == "semver" and fo == "semver" and big <= U64:
+                    # "converts to SemVer unchanged": every number up to u64 is representable on the SemVer-only path
+                    bad.append(("canonical-semver-refused", "render %r -f semver --output-format semver refused although the %s number %d fits u64: %s" % (inp, slot, big, out[:120]), case))
                 outcomes["refused"] += 1
                 continue
             got = fields_of_semver(out) if fo == "semver" else fields_of_pep440(out)
@@ -385,9 +388,8 @@ def work_wide(bins, cases):
             sig = "u32-narrowing-in-render" if big else "conversion-differs"
             bad.append((sig, "canonical SemVer %r (u64 range) re-rendered as %r" % (s, out), case))
         elif k == "err":
-            big = [x for x in S.numeric_fields(S.parse(s)) if x > U32]
-            if not big:
-                bad.append(("conversion-differs", "canonical SemVer %r refused: %s" % (s, out), case))
+            if all(x <= U64 for x in S.numeric_fields(S.parse(s))):
+                bad.append(("canonical-semver-refused", "canonical SemVer %r (all numbers within u64) refused on semver -> semver: %s" % (s, out[:120]), case))
     return dict(n=n, bad=bad)
 
 
